@@ -1,4 +1,4 @@
-import Pocket.Lemmas.StoreDel
+import Pocket.Lemmas.StoreCover
 /-
 C11 — accepted deletions are permanent and deletion times never move backwards.
 -/
@@ -108,5 +108,98 @@ theorem newer_not_refused (s : Store) (e : EventRec) (hid : e.id ∉ s.db.delIds
   split
   · simp
   · simp [hd]; exact hid
+
+/-- in every reachable state the markers and the retrievable set agree: a marked id is not
+retrievable, and every retrievable event is newer than the deletion time of its address -/
+theorem covered_unretrievable (ops : List Op) :
+    let s := run {} ops
+    (∀ id ∈ s.db.delIds, getById s id = none) ∧
+    (∀ x ∈ s.db.live, ∀ a t, addrOf x.e = some a → delAddrGet s.db.delAddrs a = some t → t < x.e.createdAt) := by
+  intro s
+  have hc : Covered s.db.live s.db.delIds s.db.delAddrs :=
+    Covered_run {} ops ⟨fun id h => by simp at h, fun x h => by simp at h⟩
+  refine ⟨fun id hid => ?_, hc.addrs⟩
+  unfold getById
+  cases hf : findById s.db.live id with
+  | none => rfl
+  | some x =>
+    obtain ⟨hx, hxid⟩ := findById_some_mem _ _ _ hf
+    exact absurd (List.mem_map.mpr ⟨x, hx, hxid⟩) (hc.ids id hid)
+
+theorem mem_addDelId_self (di : List Bytes) (id : Bytes) : id ∈ addDelId di id := by
+  unfold addDelId; split
+  · rename_i h; simpa using h
+  · simp
+
+/-- an accepted deletion request marks every id it names (other than its own) … -/
+theorem accepted_marks_ids (c : List SEv) (req : EventRec) (tags : TagsRec) (st st' : DelSt)
+    (h : handleDeletion c req tags st = .ok st') (hu : Uniq c) (v : Bytes) (rest : List Bytes) (id : Bytes)
+    (htag : (KEY_E :: v :: rest) ∈ tags) (hhex : readHex 32 v = .ok id) (hne : id ≠ req.id) :
+    id ∈ st'.delIds := by
+  induction tags generalizing st with
+  | nil => cases htag
+  | cons tag tags ih =>
+    unfold handleDeletion at h
+    split at h
+    · rename_i st1 h1
+      rcases List.mem_cons.mp htag with heq | hin
+      · subst heq
+        have hmono := (handleDeletion_markers c hu req tags st1 st' h).2.1
+        apply hmono
+        unfold delTag at h1
+        have hke : (KEY_E == KEY_E) = true := by decide
+        simp only [hke, if_true, hhex] at h1
+        unfold delE at h1
+        have : (id == req.id) = false := by simpa using hne
+        rw [if_neg (by simp [this])] at h1
+        split at h1
+        · split at h1
+          · cases h1
+          · simp only [DelOut.ok.injEq] at h1; subst h1
+            exact mem_addDelId_self _ _
+        · simp only [DelOut.ok.injEq] at h1; subst h1
+          exact mem_addDelId_self _ _
+      · exact ih _ h hin
+    · cases h
+    · cases h
+
+/-- … and every address it names, with a time not older than the request -/
+theorem accepted_marks_addresses (c : List SEv) (req : EventRec) (tags : TagsRec) (st st' : DelSt)
+    (h : handleDeletion c req tags st = .ok st') (hu : Uniq c) (v : Bytes) (rest : List Bytes)
+    (k : Nat) (a d : Bytes) (htag : (KEY_A :: v :: rest) ∈ tags) (hparse : parseAddr v = some (k, a, d)) :
+    ∃ t, req.createdAt ≤ t ∧ delAddrGet st'.delAddrs (k, a, normD k d) = some t := by
+  induction tags generalizing st with
+  | nil => cases htag
+  | cons tag tags ih =>
+    unfold handleDeletion at h
+    split at h
+    · rename_i st1 h1
+      rcases List.mem_cons.mp htag with heq | hin
+      · subst heq
+        have hmono := (handleDeletion_markers c hu req tags st1 st' h).2.2.2
+        unfold delTag at h1
+        have hke : (KEY_A == KEY_E) = false := by decide
+        have hka : (KEY_A == KEY_A) = true := by decide
+        simp only [hke, Bool.false_eq_true, if_false, hka, if_true, hparse] at h1
+        unfold delA at h1
+        split at h1
+        · cases h1
+        · split at h1
+          · cases h1
+          · simp only [DelOut.ok.injEq] at h1; subst h1
+            have hget : delAddrGet (delAddrPut st.delAddrs (k, a, normD k d)
+                (laterTime st.delAddrs (k, a, normD k d) req.createdAt)) (k, a, normD k d) =
+                some (laterTime st.delAddrs (k, a, normD k d) req.createdAt) := by
+              rw [delAddrGet_put]; simp
+            obtain ⟨t', ht', hk'⟩ := hmono _ _ hget
+            refine ⟨t', ?_, hk'⟩
+            have : req.createdAt ≤ laterTime st.delAddrs (k, a, normD k d) req.createdAt := by
+              unfold laterTime; split
+              · split <;> omega
+              · omega
+            omega
+      · exact ih _ h hin
+    · cases h
+    · cases h
 
 end Pocket.C11
